@@ -158,7 +158,9 @@ RULE = ("three structured generators over abstract parts built through Part.add/
         "quarter duration and setting it back, which leaves a REDUNDANT table entry) and are compared with a fresh build "
         "of what is left; every map is queried at every integer position of the timeline (plus 2 before and after) as "
         "scalar, ndarray and list, and once each with a numpy integer, a 0-dimensional array, a tuple, an empty list and "
-        "an empty array; every case with notes also builds the note / rest arrays four ways: "
+        "an empty array; every map object is also HELD while the caller overwrites in place the array it returned (for an "
+        "int, an ndarray and a list query, when the array is writable) and is then asked again with ints and an array - "
+        "the answers must be those of a map nobody wrote to; every case with notes also builds the note / rest arrays four ways: "
         "note_array_from_note_list / rest_array_from_rest_list called directly with a subset of the three maps (all 8 "
         "subsets; 30% also with beat and quarter maps) on the notes in score order / by pitch / reversed / shuffled / a "
         "hand-picked shuffled sub-list, and note_array_from_part / rest_array_from_part with the same include_* flags; 40% "
@@ -1001,6 +1003,22 @@ class ShapeError(Exception):
     pass
 
 
+def scribble(a, h=0):
+    """what a caller may do with an array a map handed out: overwrite every entry in place with another value (fifths
+    -> tonic pitch class, sign flips, ...).  Returns False for a read-only array (nothing written), True otherwise."""
+    if not isinstance(a, np.ndarray) or not a.flags.writeable or a.size == 0:
+        return False
+    if a.dtype.kind in "iu":
+        a[...] = (a * 7 + 5 + h % 3) % 12 + 1000
+    elif a.dtype.kind == "f":
+        a[...] = np.where(np.isnan(a), 77.0, a * -3.0 + 1000.5 + h % 3)
+    elif a.dtype.kind == "b":
+        a[...] = ~a
+    else:
+        a[...] = None if a.dtype.kind == "O" and h % 2 else -1000 - h % 3
+    return True
+
+
 def query_all(getmap, xs, canon0):
     """returns (scalar rows, vector rows, list rows, error): each a list with one canonical entry per x;
     a result of an unexpected shape counts as an error of the implementation (not of the harness)"""
@@ -1286,6 +1304,46 @@ def evaluate(desc):
                 nkinds += 1
         ev.info["arg_kind_calls"] = nkinds
         ev.info["zerod_shapes"] = zshapes
+
+        # ---- oracle: a map's ANSWER is the caller's own value, not a window onto the map's table (round 6, missed
+        #      seed C10-l).  One map object is held; it is queried (with an int, then with an array), the array that
+        #      comes back is overwritten IN PLACE by the caller (when it is writable - a read-only answer is fine), and
+        #      the same object is asked again, with ints and with an array: it must still report the elements in force,
+        #      i.e. exactly the rows a map object nobody wrote to gave (rows_s, which the direct-scan oracle below checks
+        #      against the elements).  The part was not edited, so nothing else can explain a difference.
+        nalias = {}
+        for name, req, canon0, rows_s, err_s, approx_k in call_specs:
+            if err_s is not None or rows_s is None:
+                continue
+            again = sorted(set([mid, xs[0], xs[-1]] + few))
+            for step, mk in (("int", lambda: int(mid)), ("array", lambda: np.array(xs, dtype=int)),
+                             ("list", lambda: [int(x) for x in few])):
+                m, e = call(lambda: getattr(part, name))
+                if e:
+                    break
+                ans, e = call(lambda: m(mk()))
+                if e or not isinstance(ans, np.ndarray) or ans.size == 0:
+                    continue
+                wrote, _ = call(scribble, ans, h)
+                k = "%s:%s:%s" % (name, step, "written" if wrote else "read-only")
+                nalias[k] = nalias.get(k, 0) + 1
+                if not wrote:
+                    continue
+                bad = None
+                for x in again:
+                    r, e = call(lambda: canon0(m(int(x))))
+                    if e or r != rows_s[idx_all[x]]:
+                        bad = "%s(%d) %s" % (name, x, "raises %s" % type(e).__name__ if e else "= %s" % (str(r)[:60],)), rows_s[idx_all[x]]
+                        break
+                if bad is None:
+                    r, e = call(lambda: canon0(m(np.array(xs, dtype=int))))
+                    if e or r != rows_s:
+                        j = 0 if e or not isinstance(r, list) or len(r) != len(xs) else [a != b for a, b in zip(r, rows_s)].index(True)
+                        bad = "%s(array)[%d] %s" % (name, j, "raises %s" % type(e).__name__ if e else "= %s" % (str(r[j] if isinstance(r, list) and len(r) > j else r)[:60],)), rows_s[j]
+                if bad is not None:
+                    orc.append("aliasing: after the caller overwrote in place the array %s(%s argument) returned, the same map "
+                               "object says %s; a map nobody wrote to says %s" % (name, step, bad[0], str(bad[1])[:60]))
+        ev.info["alias_calls"] = nalias
 
     # ---- oracle: an edited part answers like a part freshly built from what is on its timeline
     if edited:
